@@ -3,4 +3,5 @@
 #define VERIF_GLIB_H
 #include <glib.h>
 gpointer verif_queue_nth(GQueue *queue, guint n);
+void verif_queue_tag(GQueue *queue, int lock);   /* CBMC model only */
 #endif
